@@ -216,6 +216,9 @@ pub struct Exec {
     /// hash over the decision stream and monitor events (determinism proof)
     pub log_hash: u64,
     pub task_names: Vec<String>,
+    pub progress: u64,
+    progress_at_last_yield: u64,
+    idle_yields: u32,
 }
 
 thread_local! {
@@ -307,6 +310,9 @@ impl Exec {
             change_points: Vec::new(),
             log_hash: 0xcbf29ce484222325,
             task_names: Vec::new(),
+            progress: 0,
+            progress_at_last_yield: 0,
+            idle_yields: 0,
         };
         if let Policy::Pct(d) = e.cfg.policy {
             if e.script.is_none() {
@@ -774,6 +780,7 @@ pub fn unpark(t: usize) {
     switch(false);
     let cur = e.current;
     e.stats.unparks += 1;
+    e.progress += 1;
     let myvc = e.tasks[cur].vc;
     let tt = &mut e.tasks[t];
     tt.token = true;
@@ -786,16 +793,43 @@ pub fn unpark(t: usize) {
     e.stamp();
 }
 
+/// A task changed shared state (atomic store / successful RMW, unpark, task end): time does not accelerate.
+#[inline]
+pub fn note_progress() {
+    if let Some(e) = ex() {
+        e.progress += 1;
+    }
+}
+
+/// How far the clock moves at a yield / sleep: 200 ns normally; when tasks keep yielding without anybody
+/// changing shared state (everybody is waiting for a deadline) the step doubles every four idle yields, up to
+/// about a second - discrete-event time for long timeouts. Any monotone clock is a legal clock.
+fn idle_step(e: &mut Exec) -> u64 {
+    if e.progress == e.progress_at_last_yield {
+        e.idle_yields += 1;
+    } else {
+        e.idle_yields = 0;
+        e.progress_at_last_yield = e.progress;
+    }
+    let shift = (e.idle_yields / 4).min(22);
+    if shift > 8 {
+        e.stats.clock_jumps += 1;
+    }
+    200u64 << shift
+}
+
 pub fn yield_now() {
     if let Some(e) = ex() {
-        e.clock_ns += 200;
+        let d = idle_step(e);
+        e.clock_ns += d;
     }
     switch(true);
 }
 
 pub fn sleep_ns(ns: u64) {
     if let Some(e) = ex() {
-        e.clock_ns += ns.max(1_000);
+        let d = idle_step(e);
+        e.clock_ns += ns.max(1_000).max(d);
     }
     switch(true);
 }
@@ -944,6 +978,7 @@ pub fn run<F: FnOnce() + 'static>(cfg: RunCfg, src: Source, main: F) -> Outcome 
             Ok(CoroutineResult::Return(())) => {
                 let cur = e.current;
                 e.tasks[cur].state = TState::Finished;
+                e.progress += 1;
                 // task end is a release operation
                 e.tasks[cur].vc.0[cur] += 1;
                 e.events += 1;
